@@ -8,6 +8,7 @@ package main
 import (
 	"crypto/sha256"
 	"encoding/hex"
+	"encoding/json"
 	"fmt"
 	"math/big"
 	"math/rand"
@@ -41,6 +42,9 @@ type bHostile struct {
 	expiry  map[int]uint32 // account index -> new expiry sent by the auctioneer
 	version map[int]uint32 // account index -> new version sent
 	dup     int            // account index whose diff is duplicated with a second fee (-1 none)
+	// re-proposals: keep the accounts' stored values; send no expiry / version change
+	keepValues bool
+	noChange   bool
 }
 
 func (g *bGen) genCase(version uint32, idx int) *bCase {
@@ -132,6 +136,15 @@ func (g *bGen) genCase(version uint32, idx int) *bCase {
 			if rng.Intn(5) == 0 {
 				o.Sidecar = 2
 				o.SidecarKey = bKeyHex(bKeySidecar + rng.Intn(4))
+				// the recipient is another node (rarely our own, sometimes unknown)
+				switch rng.Intn(8) {
+				case 0:
+					o.SidecarNodeKey = ""
+				case 1:
+					o.SidecarNodeKey = bKeyHex(bKeyNodeOurs)
+				default:
+					o.SidecarNodeKey = bKeyHex(bKeyTheirNode + 24 + rng.Intn(4))
+				}
 			}
 		}
 		nMatch := 1 + rng.Intn(4)
@@ -270,6 +283,106 @@ func (g *bGen) genCase(version uint32, idx int) *bCase {
 	for i := 0; i < nDev; i++ {
 		g.deviate(c)
 	}
+	// a fraction of the cases keeps its orders in a real clientdb store (not with sidecar
+	// tickets, whose partial mock tickets the store cannot serialise; nor with duplicates)
+	pReal := 10
+	for _, d := range c.Devs {
+		switch d {
+		case "our-min-match", "our-unfulfilled", "their-units", "drop-match", "extra-match":
+			// the stored size terms decide these cases: more often against the real store
+			pReal = 2
+		}
+	}
+	if rng.Intn(pReal) == 0 {
+		ok := true
+		seen := map[string]bool{}
+		for _, o := range c.Env.Orders {
+			if o.Sidecar != 0 || seen[o.Nonce] {
+				ok = false
+			}
+			seen[o.Nonce] = true
+		}
+		c.RealStore = ok
+	}
+	return c
+}
+
+// reproposal: another prepare message for the same batch ID, as the auctioneer
+// sends when a batch needs adjustment – on the same manager, possibly after the
+// trader's database changed in between.
+func (g *bGen) reproposal(prev *bCase) *bCase {
+	rng := g.rng
+	js, _ := json.Marshal(prev)
+	c := &bCase{}
+	if err := json.Unmarshal(js, c); err != nil {
+		panic(err)
+	}
+	c.Visit, c.MarketOrder = nil, nil
+	if len(c.Env.Accounts) == 0 || len(c.Env.Orders) == 0 || len(c.Msg.Markets) == 0 {
+		c.Devs = []string{"reproposal-resend"}
+		return c
+	}
+	h := &bHostile{expiry: map[int]uint32{}, version: map[int]uint32{}, dup: -1, keepValues: true}
+	switch rng.Intn(6) {
+	case 0:
+		c.Devs = []string{"reproposal-resend"}
+	case 1:
+		// settled as if the previous proposal's account changes were already applied
+		c.Devs = []string{"reproposal-as-if-applied"}
+		saved := append([]bAcct{}, c.Env.Accounts...)
+		for i := range c.Env.Accounts {
+			a := &c.Env.Accounts[i]
+			for _, d := range prev.Msg.Diffs {
+				if d.AcctKey != a.Key {
+					continue
+				}
+				if bSupportsExt(prev.Msg.Version) && d.NewExpiry != 0 {
+					a.Expiry = d.NewExpiry
+				}
+				if bSupportsUpgrade(prev.Msg.Version) && d.NewVersion&0xff > uint32(a.Version) && d.NewVersion&0xff < 3 {
+					a.Version = uint8(d.NewVersion)
+				}
+			}
+		}
+		h.noChange = true
+		g.settle(c, h)
+		for i := range c.Env.Accounts {
+			c.Env.Accounts[i].Expiry, c.Env.Accounts[i].Version = saved[i].Expiry, saved[i].Version
+		}
+	case 2:
+		// the same proposal again although the stored account changed meanwhile
+		c.Devs = []string{"reproposal-db-changed-resend"}
+		a := &c.Env.Accounts[rng.Intn(len(c.Env.Accounts))]
+		switch rng.Intn(3) {
+		case 0:
+			a.Value += int64(1 + rng.Intn(100_000))
+		case 1:
+			a.Version = uint8((int(a.Version) + 1) % 3)
+		default:
+			a.Expiry += uint32(1 + rng.Intn(1000))
+		}
+	case 3:
+		// the stored account changed and the auctioneer follows
+		c.Devs = []string{"reproposal-db-changed-resettled"}
+		a := &c.Env.Accounts[rng.Intn(len(c.Env.Accounts))]
+		a.Value += int64(1 + rng.Intn(100_000))
+		if rng.Intn(2) == 0 {
+			a.Version = uint8((int(a.Version) + 1) % 3)
+		}
+		g.settle(c, h)
+	case 4:
+		// the same matches, this time without any expiry / version change
+		c.Devs = []string{"reproposal-without-account-change"}
+		h.noChange = true
+		g.settle(c, h)
+	default:
+		// freshly settled (new random expiry extension / upgrade choices)
+		c.Devs = []string{"reproposal-resettled"}
+		g.settle(c, h)
+	}
+	if rng.Intn(4) == 0 {
+		g.deviate(c)
+	}
 	return c
 }
 
@@ -282,18 +395,24 @@ func (g *bGen) settle(c *bCase, h *bHostile) {
 	// channel outputs
 	for _, m := range c.allMatches() {
 		o, t := m.o, m.t
+		if o == nil {
+			continue // (re-proposals of deviated cases) unknown order: nothing to fund
+		}
 		self := int64(0)
 		if !o.IsAsk {
 			self = o.SelfChanBalance
 		} else {
 			self = int64(t.SelfChanBalance)
 		}
-		ourKey := bKeyHex(int(o.KeyIndex))
+		ourKey := bKeyHex(int(o.KeyIndex & 0xff))
 		if !o.IsAsk && o.Sidecar == 2 {
 			ourKey = o.SidecarKey
 		}
 		taproot := o.ChanType == 2 && t.ChanType == 3
 		s := bFundScriptOf(taproot, ourKey, t.MultiSigKey)
+		if s == nil {
+			continue
+		}
 		outs = append(outs, bTxOut{Value: int64(t.UnitsFilled)*100_000 + self, Script: *s})
 	}
 	// accounts: choose the starting value so that the ending balance lands
@@ -305,10 +424,14 @@ func (g *bGen) settle(c *bCase, h *bHostile) {
 	var diffs []pend
 	for ai := range c.Env.Accounts {
 		a := &c.Env.Accounts[ai]
+		keep := a.Value
 		a.Value = 0
 		end0, _, involved := c.specEndingBalance(a)
 		if !involved {
 			a.Value = int64(100_000 + rng.Intn(10_000_000))
+			if h.keepValues {
+				a.Value = keep
+			}
 			continue
 		}
 		// end0 = -(total cost)
@@ -330,15 +453,18 @@ func (g *bGen) settle(c *bCase, h *bHostile) {
 			rem = -cost + minNoDust + 5
 		}
 		a.Value = cost + rem
+		if h.keepValues {
+			a.Value = keep
+		}
 		end, n, _ := c.specEndingBalance(a)
 		ending := end.Int64()
 		d := bDiff{AcctKey: a.Key, EndingBalance: uint64(ending), OutpointIndex: -1, NewVersion: uint32(a.Version)}
 		// expiry extension / version upgrade as an honest auctioneer does
 		newExp, newVer := a.Expiry, uint32(a.Version)
-		if bSupportsExt(c.Msg.Version) && rng.Intn(2) == 0 {
+		if bSupportsExt(c.Msg.Version) && rng.Intn(2) == 0 && !h.noChange {
 			d.NewExpiry = c.Best + uint32(144+rng.Intn(int(bMaxAccountExpiry)-144))
 		}
-		if bSupportsUpgrade(c.Msg.Version) && a.Version < 2 && rng.Intn(2) == 0 {
+		if bSupportsUpgrade(c.Msg.Version) && a.Version < 2 && rng.Intn(2) == 0 && !h.noChange {
 			d.NewVersion = uint32(a.Version) + 1
 			if c.Msg.Version&0x20 != 0 && rng.Intn(2) == 0 {
 				d.NewVersion = 2
@@ -831,13 +957,37 @@ func (g *bGen) deviate(c *bCase) {
 			return true
 		}},
 		{"their-node-key", func() bool {
-			_, t, _ := pickTheir()
+			mo, t, _ := pickTheir()
+			// half of the time aim at a match of one of our sidecar bids
+			if rng.Intn(2) == 0 {
+				for _, m := range c.allMatches() {
+					if m.o != nil && !m.o.IsAsk && m.o.Sidecar == 2 {
+						t = m.t
+						for i := range c.Msg.Markets {
+							for j := range c.Msg.Markets[i].Orders {
+								if c.Msg.Markets[i].Orders[j].Nonce == m.o.Nonce {
+									mo = &c.Msg.Markets[i].Orders[j]
+								}
+							}
+						}
+						break
+					}
+				}
+			}
 			if t == nil {
 				return false
 			}
-			if rng.Intn(2) == 0 {
+			switch rng.Intn(4) {
+			case 0, 1:
 				t.NodeKey = c.Env.OurNode
-			} else {
+			case 2:
+				// the node the channel of a sidecar order is really opened with
+				if o := c.ours(mo.Nonce); o != nil && o.SidecarNodeKey != "" {
+					t.NodeKey = o.SidecarNodeKey
+				} else {
+					t.NodeKey = c.Env.OurNode
+				}
+			default:
 				t.NodeKey = bKeyHex(bKeyTheirNode + 16 + rng.Intn(4))
 			}
 			return true
